@@ -2,7 +2,7 @@
     This file contains only the pinned statements; proofs live in ParseProofs/Spelling.v. *)
 From ClapModel Require Import Base.Bytes Base.Machine Base.Utf8.
 From ClapModel Require Import Parse.Cmd Parse.Build Parse.Valid Parse.Matcher Parse.Errors Parse.Validator Parse.Parser.
-From ClapModel Require Import ParseProofs.Spelling.
+From ClapModel Require Import ParseProofs.Spelling ParseProofs.SpellingLine.
 From Coq Require Import ZArith List.
 Import ListNotations.
 Open Scope N_scope.
@@ -178,3 +178,89 @@ Theorem C08_lf_exact_needs_long_flag_refuted : exists c l s,
   possible_long_flag_subcommand c l <> Some (c_name s).
 Proof. exact lf_exact_needs_long_flag_refuted. Qed.
 Print Assumptions C08_lf_exact_needs_long_flag_refuted.
+
+(** whole-line level (ParseProofs/SpellingLine.v): one occurrence rewritten, ARBITRARY rest of the line *)
+
+(** what the relations / classes used below say, spelled out *)
+Theorem C08_res_rel_meaning : forall c r2 r', res_rel c r2 r' ->
+  r2 = r' \/
+  exists s2 s',
+    resolve_pending c s2 = ROk s' /\ fs_skip s2 = 0 /\
+    (forall p, mt_pending (mt s2) = Some p -> forall k b, get_pos c k = Some b -> beq (p_id p) (a_id b) = false) /\
+    ((r2 = ROk (LDone s2) /\ r' = ROk (LDone s')) \/
+     (exists n v rest, r2 = ROk (LSub n false v s2 rest) /\ r' = ROk (LSub n false v s' rest)) \/
+     (exists n vals, r2 = ROk (LExternal n vals s2) /\ r' = ROk (LExternal n vals s')) \/
+     (exists names, r2 = ROk (LHelpSub names s2) /\ r' = ROk (LHelpSub names s'))).
+Proof. exact res_rel_meaning. Qed.
+Print Assumptions C08_res_rel_meaning.
+
+Theorem C08_gmw_rel_meaning : forall r2 r', gmw_rel r2 r' -> r2 = r' \/ exists e t2 t', r2 = RErr e t2 /\ r' = RErr e t'.
+Proof. exact gmw_rel_meaning. Qed.
+Print Assumptions C08_gmw_rel_meaning.
+
+Theorem C08_classes_meaning : forall c,
+  (forall ls tok, flag_site c ls tok <->
+     l_trailing ls = false /\
+     match state_arg c (l_pst ls) with ROk (Some b) => a_hyphen b = false | ROk None => True | _ => False end /\
+     possible_subcommand c tok (l_vaf ls) = None /\ is_escape tok = false) /\
+  (forall a r, single_opt c a r <->
+     a_takes_value a = true /\ a_req_eq a = false /\ find_arg c (a_id a) = Some a /\ a_num a = Some r /\
+     r_accepts_more r 1 = false /\ forall k b, get_pos c k = Some b -> beq (a_id a) (a_id b) = false) /\
+  (forall a v, plain_value a v <->
+     is_escape v = false /\ to_long v = None /\ to_short v = None /\ check_terminator a v = false) /\
+  (forall c0 bin toks, is_set s_no_binary_name c0 = false -> parse_top c0 (bin :: toks) = do_parse (top_cmd c0 bin) toks).
+Proof. exact classes_meaning. Qed.
+Print Assumptions C08_classes_meaning.
+
+(** the bisimulation: a state with one occurrence still pending vs the state in which it has been reacted *)
+Theorem C08_flush_bisim : forall c toks ls s2 s',
+  resolve_pending c s2 = ROk s' ->
+  (forall p, mt_pending (mt s2) = Some p -> forall k b, get_pos c k = Some b -> beq (p_id p) (a_id b) = false) ->
+  fs_skip s2 = 0 ->
+  (forall i, (if l_trailing ls then PSValuesDone else l_pst ls) <> PSOpt i) ->
+  res_rel c (parse_loop c toks ls s2) (parse_loop c toks ls s').
+Proof. exact (fun c toks ls s2 s' R P F L => flush_bisim c toks ls s2 s' (conj R (conj P F)) L). Qed.
+Print Assumptions C08_flush_bisim.
+
+(** one level of [get_matches_with] (hence [do_parse]) cannot tell related loop results apart *)
+Theorem C08_gmw_lift : forall c f X Y st0, is_set s_ignore_errors c = false ->
+  res_rel c (parse_loop c X ls_top st0) (parse_loop c Y ls_top st0) ->
+  gmw_rel (get_matches_with (S f) c X st0) (get_matches_with (S f) c Y st0).
+Proof. exact gmw_lift. Qed.
+Print Assumptions C08_gmw_lift.
+
+Theorem C08_do_parse_lift : forall c0 X Y, is_set s_ignore_errors (build_self c0) = false ->
+  res_rel (build_self c0) (parse_loop (build_self c0) X ls_top ps_new) (parse_loop (build_self c0) Y ls_top ps_new) ->
+  do_parse c0 X = do_parse c0 Y.
+Proof. exact do_parse_lift. Qed.
+Print Assumptions C08_do_parse_lift.
+
+(** [--opt v] = [--opt=v] *)
+Theorem C08_long_space_vs_eq : forall c l v a r tokA tokB rest ls st x0,
+  is_set s_sub_precedence c = false ->
+  flag_site c ls tokA -> flag_site c ls tokB ->
+  to_long tokA = Some (l, true, Some v) -> to_long tokB = Some (l, true, None) ->
+  lookup_long c l = Some a -> single_opt c a r -> plain_value a v -> fs_skip st = 0 ->
+  react c (Some ILong) SCmdLine a [v] None st = ROk x0 ->
+  res_rel c (parse_loop c (tokB :: v :: rest) ls st) (parse_loop c (tokA :: rest) ls st).
+Proof. exact long_space_vs_eq. Qed.
+Print Assumptions C08_long_space_vs_eq.
+
+Theorem C08_long_space_vs_eq_line : forall c0 bin l v a r tokA tokB rest x0,
+  is_set s_no_binary_name c0 = false ->
+  let c := build_self (top_cmd c0 bin) in
+  is_set s_ignore_errors c = false -> is_set s_sub_precedence c = false ->
+  flag_site c ls_top tokA -> flag_site c ls_top tokB ->
+  to_long tokA = Some (l, true, Some v) -> to_long tokB = Some (l, true, None) ->
+  lookup_long c l = Some a -> single_opt c a r -> plain_value a v ->
+  react c (Some ILong) SCmdLine a [v] None ps_new = ROk x0 ->
+  parse_top c0 (bin :: tokB :: v :: rest) = parse_top c0 (bin :: tokA :: rest).
+Proof. exact long_space_vs_eq_top. Qed.
+Print Assumptions C08_long_space_vs_eq_line.
+
+(** observation: the success hypothesis is needed (different error kinds for a rejected value) *)
+Theorem C08_spelling_needs_success_witness : exists c0 tokA tokB v rest,
+  out_kind (parse_top c0 ([112] :: tokA :: rest)) = Some EInvalidUtf8 /\
+  out_kind (parse_top c0 ([112] :: tokB :: v :: rest)) = Some EUnknownArgument.
+Proof. exact spelling_needs_success_witness. Qed.
+Print Assumptions C08_spelling_needs_success_witness.
